@@ -29,7 +29,15 @@ import (
 const simrtSrc = `// Package simrt is dropped into an instrumented scratch copy by /verif/tools/instrument.
 package simrt
 
-import "time"
+import (
+	"sync"
+	"time"
+)
+
+// TreeStartsGoroutines: the instrumented tree contains a go statement. The simulator then
+// checks, at every hook, that the caller is the task that holds the baton; a goroutine of the
+// library's own runs free (unscheduled) instead of being mistaken for that task.
+const TreeStartsGoroutines = __HASGO__
 
 var (
 	YieldHook    func(label, class string)
@@ -87,6 +95,19 @@ func AfterFunc(d time.Duration, f func()) *time.Timer {
 	return time.AfterFunc(d, f)
 }
 
+// OnceDo: X.Do(f) on a sync.Once of the tree. sync.Once blocks its second caller inside the Go
+// runtime while the first is still in f; under the simulator the first may be a task that has
+// been preempted, so the second caller must park in the simulator's scheduler instead.
+var OnceHook func(o *sync.Once, f func())
+
+func OnceDo(o *sync.Once, f func()) {
+	if h := OnceHook; h != nil {
+		h(o, f)
+		return
+	}
+	o.Do(f)
+}
+
 var TimerResetHook func(t *time.Timer, d time.Duration) bool
 
 func TimerReset(t *time.Timer, d time.Duration) bool {
@@ -118,6 +139,8 @@ var (
 	// a one-argument Reset call somewhere in the tree: a timer may be re-armed, which the
 	// simulator could not follow, so time.AfterFunc stays real
 	treeResetsTimers bool
+	onceNames        = map[string]bool{} // struct fields / variables declared as sync.Once
+	nOnce            int
 	resetReceivers   = map[string]bool{}
 	timerExprs       = map[string]bool{}
 )
@@ -175,7 +198,22 @@ func main() {
 	if err := os.MkdirAll(filepath.Join(root, "simrt"), 0o755); err != nil {
 		die(err)
 	}
-	if err := os.WriteFile(filepath.Join(root, "simrt", "simrt.go"), []byte(simrtSrc), 0o644); err != nil {
+	hasGo := "false"
+	filepath.Walk(root, func(path string, info os.FileInfo, err error) error {
+		if err != nil || info.IsDir() || !strings.HasSuffix(path, ".go") || strings.HasSuffix(path, "_test.go") || strings.Contains(path, "/testdata/") || strings.Contains(path, "/.git/") {
+			return nil
+		}
+		if f, err := parser.ParseFile(token.NewFileSet(), path, nil, 0); err == nil {
+			ast.Inspect(f, func(x ast.Node) bool {
+				if _, ok := x.(*ast.GoStmt); ok {
+					hasGo = "true"
+				}
+				return true
+			})
+		}
+		return nil
+	})
+	if err := os.WriteFile(filepath.Join(root, "simrt", "simrt.go"), []byte(strings.Replace(simrtSrc, "__HASGO__", hasGo, 1)), 0o644); err != nil {
 		die(err)
 	}
 	walk := func(visit func(path, rel string) error) error {
@@ -194,6 +232,40 @@ func main() {
 			}
 			rel, _ := filepath.Rel(root, path)
 			return visit(path, rel)
+		})
+	}
+	if !optNoYield { // names of struct fields and variables of type sync.Once
+		walk(func(path, rel string) error {
+			f, err := parser.ParseFile(token.NewFileSet(), path, nil, 0)
+			if err != nil {
+				return nil
+			}
+			isOnce := func(t ast.Expr) bool {
+				sel, ok := t.(*ast.SelectorExpr)
+				if !ok || sel.Sel.Name != "Once" {
+					return false
+				}
+				id, ok := sel.X.(*ast.Ident)
+				return ok && id.Name == "sync"
+			}
+			ast.Inspect(f, func(x ast.Node) bool {
+				switch n := x.(type) {
+				case *ast.Field:
+					if isOnce(n.Type) {
+						for _, nm := range n.Names {
+							onceNames[nm.Name] = true
+						}
+					}
+				case *ast.ValueSpec:
+					if n.Type != nil && isOnce(n.Type) {
+						for _, nm := range n.Names {
+							onceNames[nm.Name] = true
+						}
+					}
+				}
+				return true
+			})
+			return nil
 		})
 	}
 	if optClock { // does any file re-arm something with a one-argument Reset? then timers stay real
@@ -252,9 +324,35 @@ func instrumentFile(path, rel string, rootPkg bool) error {
 	if f.Name.Name == "main" {
 		return nil
 	}
-	before := nYields + nLocks + nClock
+	before := nYields + nLocks + nClock + nOnce
 	if optClock {
 		rewriteClock(f)
+	}
+	if !optNoYield && len(onceNames) > 0 { // X.once.Do(f)  =>  simrt.OnceDo(&X.once, f)
+		ast.Inspect(f, func(x ast.Node) bool {
+			c, ok := x.(*ast.CallExpr)
+			if !ok || len(c.Args) != 1 {
+				return true
+			}
+			sel, ok := c.Fun.(*ast.SelectorExpr)
+			if !ok || sel.Sel.Name != "Do" {
+				return true
+			}
+			last := ""
+			switch r := sel.X.(type) {
+			case *ast.Ident:
+				last = r.Name
+			case *ast.SelectorExpr:
+				last = r.Sel.Name
+			}
+			if !onceNames[last] {
+				return true
+			}
+			c.Args = []ast.Expr{&ast.UnaryExpr{Op: token.AND, X: sel.X}, c.Args[0]}
+			c.Fun = &ast.SelectorExpr{X: ast.NewIdent("simrt"), Sel: ast.NewIdent("OnceDo")}
+			nOnce++
+			return true
+		})
 	}
 	for _, d := range f.Decls {
 		fd, ok := d.(*ast.FuncDecl)
@@ -267,7 +365,7 @@ func instrumentFile(path, rel string, rootPkg bool) error {
 		// writer and in-flight requests
 		rewriteBlock(fd.Body, rel, class)
 	}
-	if nYields+nLocks+nClock == before {
+	if nYields+nLocks+nClock+nOnce == before {
 		return nil
 	}
 	addImport(f, module+"/simrt")
